@@ -4,6 +4,7 @@ import Texel.Proofs.Vertices
 import Texel.Proofs.SplitInv
 import Texel.Proofs.HitCount
 import Texel.Model.RingF
+import Texel.Proofs.DedupeSub
 /-! # C18 — moderately collapsing polygons are reduced without inventing geometry   (partial)
 
 `maxVisits` (how often the routed boundary passes through one pixel centre) is defined on the model's routed chains; the three
@@ -45,6 +46,16 @@ theorem C18_boundary_exists (g : Grid) (hres : 0 < g.res) (rings : List (List Pt
 /-- spike removal only removes: the de-duplicated ring's vertices are vertices of the routed chain -/
 theorem C18_dedup_subset (ring out : Array P) (h : kmpDeduplicateF ring = .ok out) : ∀ v ∈ out, v ∈ ring :=
   kmpDeduplicateF_mem ring out h
+
+/-- **cancellation and hole matching invent no ring** (ring level): shell/hole cancellation returns a sub-sequence of the shells and a
+sub-sequence of the holes it was given, and hole matching returns exactly the rings of the polygons it was given plus every hole once
+(partial in its second half: under the guard that every matching decision names an existing polygon — in Go an index panic). -/
+theorem C18_assembly_invents_no_ring_partial (outers inners o i : Array (Array P)) (h : dedupeF outers inners = .ok (o, i))
+    (polys0 : Array (Array (Array P)))
+    (hd : ∀ inner ∈ i.toList, ∀ k, matchDecision (polys0.map fun pg => pg[0]!) (sortPolyIdxsByOuterAreaDesc polys0) inner = some k → k < polys0.size) :
+    o.toList.Sublist outers.toList ∧ i.toList.Sublist inners.toList ∧
+    ringCount (matchF polys0 i).toList = ringCount polys0.toList + i.size :=
+  ⟨(dedupeF_sublist outers inners o i h).1, (dedupeF_sublist outers inners o i h).2, matchF_ringCount polys0 i hd⟩
 
 /-- **no vertex is invented**: every vertex of every ring returned for level `l` is a routed pixel of some edge of some ring of the
 input polygon (whatever joining, spike removal, splitting, cancellation, hole matching, reversal and the keep option did) -/
